@@ -25,6 +25,8 @@ type devRun struct {
 	exit     int
 	failed   []string // failing test names
 	timedOut bool
+	// scoped deviants: file systems made inside the scope, and how often the deviation took effect
+	activations, fired int
 }
 
 func runDeviant(bin, id string, parallel, procs int, tz ...string) devRun {
@@ -49,6 +51,12 @@ func runDeviant(bin, id string, parallel, procs int, tz ...string) devRun {
 		}
 		if strings.Contains(l, "test timed out") {
 			r.timedOut = true
+		}
+		if strings.HasPrefix(l, "SCOPE-ACTIVATIONS ") {
+			fmt.Sscan(strings.TrimPrefix(l, "SCOPE-ACTIVATIONS "), &r.activations)
+		}
+		if strings.HasPrefix(l, "DEVIATION-FIRED ") {
+			fmt.Sscan(strings.TrimPrefix(l, "DEVIATION-FIRED "), &r.fired)
 		}
 	}
 	sort.Strings(r.failed)
@@ -102,8 +110,16 @@ func c20Custom(d *driver) int {
 	var jobs []job
 	for _, id := range append(append([]string{}, refs...), ids...) {
 		for _, p := range []int{1, 16} {
-			for _, procs := range procsList {
-				for rep := 0; rep < reps; rep++ {
+			pl, rp := procsList, reps
+			if strings.Contains(id, "#") {
+				// scenario-scoped deviants (several per scenario of the suite): fewer configurations each
+				pl, rp = []int{16}, 1
+				if d.tier == "thorough" {
+					pl, rp = []int{1, 16}, 2
+				}
+			}
+			for _, procs := range pl {
+				for rep := 0; rep < rp; rep++ {
 					jobs = append(jobs, job{id, p, procs, rep, ""})
 				}
 				if strings.HasPrefix(id, "ref:") {
@@ -137,6 +153,7 @@ func c20Custom(d *driver) int {
 	var lines []string
 	var samples []interface{}
 	rejected, distinct := 0, map[string]bool{}
+	scopedRun, scopedSkipped := 0, 0
 	printed := map[string]bool{}
 	report := func(sig, detail, id string) {
 		for _, k := range known {
@@ -176,6 +193,21 @@ func c20Custom(d *driver) int {
 			verdicts[v] = true
 		}
 		distinct[id] = true
+		if strings.Contains(id, "#") {
+			// a scoped deviant has something to say only where its scenario still exists under that name and still
+			// exercises the deviated behaviour: otherwise the wrapper was the reference all along
+			exercised := true
+			for _, r := range rs {
+				if r.activations == 0 || r.fired == 0 {
+					exercised = false
+				}
+			}
+			if !exercised {
+				scopedSkipped++
+				continue
+			}
+			scopedRun++
+		}
 		if len(samples) < 4 {
 			samples = append(samples, map[string]interface{}{"deviant": id, "failing_tests_parallel1": rs[0].failed, "exit": rs[0].exit})
 		}
@@ -200,11 +232,12 @@ func c20Custom(d *driver) int {
 	cov := map[string]interface{}{
 		"evaluations":         len(jobs),
 		"distinct_nontrivial": len(ids),
-		"rule":                "the fixed catalogue of single-deviation wrappers around mem.FS (one per operation x deviation kind) is enumerated; every entry and the three references (mem.FS, os.FS, the wrapper without deviation) run the full fstest.FS and fstest.File suites at -test.parallel 1 and 16 x GOMAXPROCS 1 and 16 (thorough: 1, 2, 4, 16), 2 (thorough: 5) times each, and all runs of one entry must agree; a deviant is a non-trivial case (it differs from the reference in one observable behaviour); distinct = catalogue ids run",
+		"rule":                "the fixed catalogue of single-deviation wrappers around mem.FS (one per operation x deviation kind, plus the scenario-scoped ones '<id>#<scenario>' whose deviation applies inside one scenario of the suite only; those run at -test.parallel 1 and 16 with GOMAXPROCS 16, thorough also 1, and are skipped when the scenario is not found or the deviation never takes effect) is enumerated; every entry and the references (mem.FS, os.FS, the wrapper without deviation) run the full fstest.FS and fstest.File suites at -test.parallel 1 and 16 x GOMAXPROCS 1 and 16 (thorough: 1, 2, 4, 16), 2 (thorough: 5) times each, and all runs of one entry must agree; a deviant is a non-trivial case (it differs from the reference in one observable behaviour); distinct = catalogue ids run",
 		"samples":             samples,
 		"catalogue_size":      len(all),
 		"deviants_run":        len(ids),
 		"deviants_rejected":   rejected,
+		"scoped_deviants":     map[string]int{"exercised and judged": scopedRun, "skipped: scenario not found under that name or deviation never took effect": scopedSkipped},
 		"references":          refs,
 		"suite_runs":          len(jobs),
 		"exhaustive":          d.tier == "thorough",
